@@ -245,7 +245,7 @@ func runInstantSync(r *mon.Run, cc c11Case) {
 	var nodes []*p2plab.Node
 	if withH {
 		var err error
-		h, err = p2plab.NewNode(p2plab.NodeOpts{Name: "honest", IP: p2plab.HonestIP(slot, 1), Tree: t, Tip: hTip,
+		h, err = p2plab.NewNode(p2plab.NodeOpts{Name: "honest", IP: p2plab.HonestIP(slot, 1), Tree: t, Tip: hTip, KeepLog: true,
 			SyncInterval: 75 * time.Millisecond, DiscoveryInterval: time.Hour, RPCTimeout: 2 * time.Second})
 		if err != nil {
 			r.Inconclusive(fmt.Sprintf("C11 case %d: cannot build honest peer: %v", cc.Stream, err))
@@ -310,7 +310,7 @@ func runInstantSync(r *mon.Run, cc c11Case) {
 		return
 	}
 	// initialise the victim at the retrieved checkpoint and sync the rest
-	v, err := p2plab.NewNode(p2plab.NodeOpts{Name: "victim", IP: p2plab.HonestIP(slot, 0), Tree: t, Tip: cp, Checkpoint: cp,
+	v, err := p2plab.NewNode(p2plab.NodeOpts{Name: "victim", IP: p2plab.HonestIP(slot, 0), Tree: t, Tip: cp, Checkpoint: cp, KeepLog: true,
 		SyncInterval: time.Duration(50+prng.IntN(50)) * time.Millisecond, DiscoveryInterval: time.Duration(50+prng.IntN(50)) * time.Millisecond, RPCTimeout: 2 * time.Second})
 	if err != nil {
 		r.Inconclusive(fmt.Sprintf("C11 case %d: cannot initialise the victim at the checkpoint: %v", cc.Stream, err))
@@ -357,6 +357,7 @@ func runInstantSync(r *mon.Run, cc c11Case) {
 		}
 	}
 	detail["victim"] = reportOf(v)
+	detail["victim_log_tail"] = v.LogTail()
 	detail["byzantine_counters_at_end"] = b1.Counters()
 	var peersNow []string
 	for _, p := range v.S.Peers() {
@@ -372,6 +373,8 @@ func runInstantSync(r *mon.Run, cc c11Case) {
 		if msg, ok := h.RunExited(); ok {
 			detail["honest_syncer_run"] = msg
 		}
+		detail["honest_log_tail"] = h.LogTail()
+		detail["honest_bans"] = h.PS.Bans()
 	}
 	b1.Close()
 	closeAll(r, nodes)
